@@ -135,20 +135,16 @@ def check_property(prop, tier="quick", seed=0, jobs=16):
     hs = [k for k in KANI_UNITS if prop in k["props"] and TIERS[k.get("tier", "quick")] <= TIERS[tier]]
     kres = {}
     if hs:
-        groups = {}
-        for k in hs:
-            groups.setdefault(k.get("timeout", 600), []).append(k)
-        for tmo, ks in groups.items():
-            try:
-                res, info = K.run_harnesses([k["harness"] for k in ks], timeout_s=tmo, jobs=jobs)
-            except Undecided as e:
-                undecided.append("kani: " + str(e)[:3000])
-                continue
+        tmo = max(k.get("timeout", 600) for k in hs)
+        try:
+            res, info = K.run_harnesses([k["harness"] for k in hs], timeout_s=tmo, jobs=jobs)
             kres.update(res)
             checker_cmds.append(info["cmd"])
             kb = by_backend.setdefault("kani-cbmc", dict(harnesses=0, checks=0, unreachable=0, solver_s=0.0, wall_s=0.0))
             kb["solver_s"] += info["solver_s"]
             kb["wall_s"] += info["wall"]
+        except Undecided as e:
+            undecided.append("kani: " + str(e)[:3000])
     kb = by_backend.get("kani-cbmc")
     for k in hs:
         r = kres.get(k["harness"])
@@ -160,7 +156,7 @@ def check_property(prop, tier="quick", seed=0, jobs=16):
             bounded.append(dict(harness=k["harness"], bound=k.get("bound", ""), status=r["status"], checks=r["total"]))
         for fn in k.get("fns", []):
             fns_under_contract.append(dict(fn=fn, engine=("Kb:" if is_bounded else "K:") + k["harness"]))
-        viol, und, ign = K.classify(r, prop)
+        viol, und, ign = K.classify(r, prop, k.get("allow", ()))
         n_checks = r["total"]
         kb["checks"] += n_checks
         kb["unreachable"] += r["unreachable"]
@@ -168,6 +164,8 @@ def check_property(prop, tier="quick", seed=0, jobs=16):
         vac["covers_total"] += r["covers"][1]
         if not is_bounded:
             obligations += n_checks
+        if r["status"] == "failed" and not viol and not und:
+            r["status"] = "success"   # only permitted clean failures / ignored float checks
         if r["status"] in ("timeout", "error", "missing"):
             undecided.append(f"kani {k['harness']}: {r['status']} {r.get('raw', '')[-300:]}")
             continue
